@@ -586,14 +586,33 @@ func vkRunCrashJob(j *vkCrashJob, root string) {
 	odone := make(chan error, 1)
 	go func() { odone <- obsCmd.Wait() }()
 	how := ""
+	hangMs := vkEnvInt("VERIF_HANG_MS", 10000)
 	select {
 	case err := <-odone:
 		if err != nil {
+			if ee, ok := err.(*exec.ExitError); ok {
+				if ws, ok := ee.Sys().(syscall.WaitStatus); ok && ws.Signaled() && ws.Signal() == syscall.SIGKILL {
+					// killed by somebody else (e.g. the OOM killer): not an observation
+					j.note = "infra:observer killed externally"
+					return
+				}
+			}
 			how = "died:" + err.Error()
 		}
-	case <-time.After(time.Duration(vkEnvInt("VERIF_HANG_MS", 4000)) * time.Millisecond):
+	case <-time.After(time.Duration(hangMs) * time.Millisecond):
 		obsCmd.Process.Kill()
 		<-odone
+		// Timing alone never becomes a verdict: "hang" is reported only when the observer
+		// was busy for most of the time it was given (a livelock burns CPU); an observer
+		// that was merely slow or starved is an infrastructure failure.
+		cpu := time.Duration(0)
+		if ps := obsCmd.ProcessState; ps != nil {
+			cpu = ps.UserTime() + ps.SystemTime()
+		}
+		if cpu < time.Duration(hangMs)*time.Millisecond/2 {
+			j.note = fmt.Sprintf("infra:observer stalled (cpu %v of %d ms)", cpu, hangMs)
+			return
+		}
 		how = "hang"
 	}
 	eb, _ := os.ReadFile(evPath)
